@@ -12,7 +12,7 @@ import (
 	"strings"
 )
 
-var realUFs = map[string]bool{"dec": true, "undec": true, "pu_ok": true, "sha256": true, "hexenc": true, "hexencU": true, "hexdec": true, "hex_ok": true, "tolower": true, "toupper": true, "trimspace": true}
+var realUFs = map[string]bool{"dec": true, "undec": true, "pu_ok": true, "sha256": true, "hexenc": true, "hexencU": true, "hexdec": true, "hex_ok": true, "tolower": true, "toupper": true, "trimspace": true, "be64": true, "unbe64": true}
 
 func collectUFApps(ts []*T, seen map[*T]bool, out *[]*T) {
 	for _, t := range ts {
@@ -79,6 +79,21 @@ func realValue(name string, arg *T) (*T, bool) {
 	case "hex_ok":
 		_, err := hex.DecodeString(arg.Str)
 		return BoolConst(err == nil), true
+	case "be64":
+		var b [8]byte
+		for i := 0; i < 8; i++ {
+			b[i] = byte(arg.BV >> uint(8*(7-i)))
+		}
+		return StrConst(string(b[:])), true
+	case "unbe64":
+		if len(arg.Str) != 8 {
+			return nil, false
+		}
+		var v uint64
+		for i := 0; i < 8; i++ {
+			v = v<<8 | uint64(arg.Str[i])
+		}
+		return BVConst(v, 64), true
 	case "tolower":
 		return StrConst(strings.ToLower(arg.Str)), true
 	case "toupper":
